@@ -249,12 +249,16 @@ func (d *segmentationDescriptor) parseDescriptor(data []byte) error {
 			d.upid = []byte{}
 			// Iterate over the whole MID len(segUpidLen) to get all `n` UPIDs
 			// segUpidLen is in bytes.
-			for segUpidLen != 0 {
+			for segUpidLen > 0 {
 				UpidElem := upidSt{}
 				UpidElem.upidType = SegUPIDType(readByte())
 				segUpidLen -= 1
 				UpidElem.upidLen = int(readByte())
 				segUpidLen -= 1
+				// the entry must fit in what is left of the MID and of the descriptor
+				if segUpidLen < UpidElem.upidLen || buf.Len() < UpidElem.upidLen {
+					return gots.ErrInvalidSCTE35Length
+				}
 				UpidElem.upid = buf.Next(UpidElem.upidLen)
 				segUpidLen -= UpidElem.upidLen
 				d.mid = append(d.mid, UpidElem)
